@@ -9,6 +9,7 @@ package client
 // a script of reply events explored by the engine.
 
 import (
+	"errors"
 	"strconv"
 	"sync"
 	"time"
@@ -30,6 +31,8 @@ type c14Session struct {
 	// the coordinator answers this request so fast that the reply is processed
 	// before WritePkg returns to the sender
 	instant func(m message.RpcMessage)
+	// the next write fails (timeout / broken pipe): nothing goes out
+	failNext bool
 }
 
 func (s *c14Session) IsClosed() bool     { return s.closed }
@@ -43,6 +46,10 @@ func (s *c14Session) SetAttribute(k, v interface{}) { s.attrs[k] = v }
 func (s *c14Session) WritePkg(pkg interface{}, timeout time.Duration) (int, int, error) {
 	s.mu.Lock()
 	defer s.mu.Unlock()
+	if s.failNext {
+		s.failNext = false
+		return 0, 0, errors.New("write tcp: i/o timeout")
+	}
 	m, ok := pkg.(message.RpcMessage)
 	if ok {
 		s.written = append(s.written, m)
@@ -80,11 +87,13 @@ type c14Caller struct {
 const c14Scale = 100
 
 type c14World struct {
-	s         *c14Session
-	callers   []*c14Caller
-	started   int
-	finished  int
-	handler   interface{ OnMessage(getty.Session, interface{}) }
+	s        *c14Session
+	callers  []*c14Caller
+	started  int
+	finished int
+	handler  interface {
+		OnMessage(getty.Session, interface{})
+	}
 	lateStart int
 }
 
@@ -159,7 +168,10 @@ func (w *c14World) event(name string, late bool) {
 	case e == n+2:
 		vrt.Reach("c14/phase-two-answer")
 		// the coordinator numbers its requests itself: any id, in particular a pending request's
+		// ... and the write of the answer may fail
+		w.s.failNext = vrt.Bool(name + ".write.fails")
 		_ = sgetty.GetGettyRemotingClient().SendAsyncResponse(vrt.Int32(name+".serverid"), message.BranchCommitResponse{})
+		w.s.failNext = false
 	case e == n+3:
 		vrt.Reach("c14/one-way")
 		_ = sgetty.GetGettyRemotingClient().SendAsyncRequest(message.RegisterTMRequest{})
